@@ -86,12 +86,19 @@ unit() {
     done
 }
 
+benign() {
+    for f in "$VERIF"/selftest/benign/*.diff; do
+        "$VERIF/tools/benignrun.sh" "$f" || fail=1
+    done
+}
+
 case "$what" in
+    benign) benign ;;
     unit) unit ;;
     determinism) determinism ;;
     mutants) mutants ;;
     clean) clean ;;
     all) unit; determinism; clean; mutants ;;
-    *) echo "usage: selftest/run.sh [unit|determinism|mutants|clean|all]"; exit 2 ;;
+    *) echo "usage: selftest/run.sh [unit|determinism|mutants|clean|benign|all]"; exit 2 ;;
 esac
 exit $fail
